@@ -26,10 +26,9 @@ AllOps == {"push", "push_str", "insert", "insert_str", "remove", "pop", "truncat
            "replace_range", "extend_from_within", "split_off", "write_fmt", "extend_zeroed", "reserve",
            "into_cstr", "alloc_cstr", "alloc_cstr_from_str", "alloc_cstr_fmt", "alloc_cstr_fmt_mut"}
 NoOps == {}
-RetainOnly == {"retain"}
-AllOuts == {"ok", "panic", "full"}
-OkOnly  == {"ok"}
-OkPanic == {"ok", "panic"}
+AllOuts  == {"ok", "panic", "full", "inject"}
+OkOnly   == {"ok"}
+OkInject == {"ok", "inject"}
 FromStrOnly == {"from_str"}
 DecodeCtors == AllCtors \ {"from_str"}
 
